@@ -20,16 +20,32 @@
 //! ec <name> round=<r> votes=<v>/<v>/...     defines an extended commit; <v> = aK:<flag>:<prices>[:<sig>]
 //!                                   flag c|n|a (commit, nil, absent); prices `-` or id=price,id=price;
 //!                                   sig ok (default) | bad (signature over a different round) | none
-//! prep <i> <blk> [ec=<name>] [prop=aK] [round=<r>] [tplus=<s>] [maxb=<n>] [keep=1] txs=<id,...|->
+//! prep <i> <blk> [ec=<name>] [prop=aK] [round=<r>] [tplus=<ms>] [misb=<aK,...|->] [nvh=<k>] [salt=<n>]
+//!      [maxb=<n>] [keep=1] txs=<id,...|->
 //!                                   replica i: mempool := txs (those passing CheckTx-style
 //!                                   construction against the committed state; with keep=1 the txs
 //!                                   admitted at earlier heights stay), PrepareProposal; the
-//!                                   response defines block <blk> (or is compared with it: match=0|1)
-//! hand <i> <blk> [ec=..] [ecmode=honest|raw] [prop=..] [round=..] [tplus=..] [bad=commit|item] txs=..
-//!                                   builds block <blk> by hand on (scratch) replica i: given order,
+//!                                   response defines block <blk> (or is compared with it: match=0|1).
+//!                                   Request fields: tplus = offset of the block time in ms, prop =
+//!                                   proposer address, misb = evidence (one DuplicateVote per named
+//!                                   account), nvh = next_validators_hash ([k; 32], 0 = empty hash),
+//!                                   salt = goes into the block hash only (what CometBFT hashes but
+//!                                   never shows to the application, e.g. the commit signatures)
+//! hand <i> <blk> [ec=..] [ecmode=honest|raw] [prop=..] [round=..] [tplus=..] [misb=..] [nvh=..] [salt=..]
+//!      [bad=commit|item] txs=..     builds block <blk> by hand on (scratch) replica i: given order,
 //!                                   failing txs included, commitments over a dry run
-//! proc <i> <blk>                    ProcessProposal of block <blk> on replica i
-//! fin <i> <blk>                     FinalizeBlock
+//! hand <i> <blk> like=<base> [tplus=..] [prop=..] [misb=..] [nvh=..] [lc=<ec name>] [round=<r>] [salt=..]
+//!                                   near twin: block <blk> := block <base> (same txs, same fields)
+//!                                   except for the given request fields (lc = the last commit is
+//!                                   the projection of that extended commit; round = the last
+//!                                   commit's round); the block hash is recomputed.  Prints ve= and
+//!                                   valid= (whether `validate_proposal` accepts the data's extended
+//!                                   commit against the new last commit on replica i's committed
+//!                                   state).  Replica i is not touched.
+//! proc <i> <blk> [<field>=..]...    ProcessProposal of block <blk> on replica i; with field arguments
+//!                                   (as for `like=`) the request is the near twin `<blk>~<f>=<v>~..`
+//!                                   of <blk> (defined on first use; that name is printed)
+//! fin <i> <blk> [<field>=..]...     FinalizeBlock (same optional arguments)
 //! commit <i>                        Commit
 //! restart <i>                       fresh `App` (empty mempool, execution state unset) on the same storage
 //! idump <i>                         `dump` of replica i plus the oracle store
@@ -64,7 +80,10 @@ use astria_core::{
         },
     },
     protocol::price_feed::v1::ExtendedCommitInfoWithCurrencyPairMapping,
-    sequencerblock::v1::DataItem,
+    sequencerblock::v1::{
+        block::ExpandedBlockData,
+        DataItem,
+    },
     upgrades::v1::Change,
     Protobuf as _,
 };
@@ -87,6 +106,8 @@ use tendermint::{
             CommitInfo,
             ExtendedCommitInfo,
             ExtendedVoteInfo,
+            Misbehavior,
+            MisbehaviorKind,
             Validator,
             VoteInfo,
         },
@@ -200,12 +221,43 @@ struct Block {
     txs: Vec<Bytes>,
     last_commit: CommitInfo,
     hash: Hash,
+    misbehavior: Vec<Misbehavior>,
+    next_validators_hash: Hash,
+    salt: u64,
+}
+
+impl Block {
+    fn rehash(&mut self) {
+        self.hash = block_hash_of(
+            self.height,
+            self.time,
+            &self.proposer,
+            &self.last_commit,
+            &self.txs,
+            &self.misbehavior,
+            self.next_validators_hash,
+            self.salt,
+        );
+    }
 }
 
 struct BlockMeta {
     time: Time,
     proposer: tendermint::account::Id,
     round: u16,
+    misbehavior: Vec<Misbehavior>,
+    next_validators_hash: Hash,
+    salt: u64,
+}
+
+/// `nvh=<k>`: `[k; 32]`, 0 = the empty hash (what all other harness blocks carry).
+fn parse_next_validators_hash(value: &str) -> PResult<Hash> {
+    let byte: u8 = value.parse().map_err(|_| "bad nvh".to_string())?;
+    Ok(if byte == 0 {
+        Hash::default()
+    } else {
+        Hash::Sha256([byte; 32])
+    })
 }
 
 struct Driver {
@@ -238,6 +290,9 @@ fn block_hash_of(
     proposer: &tendermint::account::Id,
     last_commit: &CommitInfo,
     txs: &[Bytes],
+    misbehavior: &[Misbehavior],
+    next_validators_hash: Hash,
+    salt: u64,
 ) -> Hash {
     let mut hasher = Sha256::new();
     hasher.update(b"c05-block");
@@ -256,6 +311,16 @@ fn block_hash_of(
         hasher.update((tx.len() as u64).to_le_bytes());
         hasher.update(tx);
     }
+    hasher.update((misbehavior.len() as u64).to_le_bytes());
+    for evidence in misbehavior {
+        hasher.update(evidence.validator.address);
+        hasher.update(evidence.validator.power.value().to_le_bytes());
+        hasher.update(evidence.height.value().to_le_bytes());
+        hasher.update(evidence.time.unix_timestamp_nanos().to_le_bytes());
+        hasher.update(evidence.total_voting_power.value().to_le_bytes());
+    }
+    hasher.update(next_validators_hash.as_bytes());
+    hasher.update(salt.to_le_bytes());
     Hash::Sha256(hasher.finalize().into())
 }
 
@@ -684,11 +749,154 @@ impl Driver {
         let time = block_time(height)
             .checked_add(Duration::from_millis(time_offset))
             .ok_or("bad time")?;
+        let misbehavior = match kv.opt_some("misb") {
+            Some(spec) => self.misbehavior_of(index, spec, height)?,
+            None => vec![],
+        };
+        let next_validators_hash = match kv.opt("nvh") {
+            Some(value) => parse_next_validators_hash(value)?,
+            None => Hash::default(),
+        };
+        let salt: u64 = match kv.opt("salt") {
+            Some(value) => value.parse().map_err(|_| "bad salt".to_string())?,
+            None => 0,
+        };
         Ok(BlockMeta {
             time,
             proposer,
             round,
+            misbehavior,
+            next_validators_hash,
+            salt,
         })
+    }
+
+    /// `misb=aK,aL,...`: one piece of evidence (duplicate vote at the previous height) per named
+    /// account.  Everything but the validator address is fixed, so that the same spec always
+    /// yields the same `Misbehavior` values.
+    fn misbehavior_of(&self, index: usize, spec: &str, height: u64) -> PResult<Vec<Misbehavior>> {
+        let names = &self.replicas[index].names;
+        let mut out = Vec::new();
+        for token in spec.split(',').filter(|token| !token.is_empty()) {
+            let account = names.account_index(token)?;
+            let address = *names.keys[account].verification_key().address_bytes();
+            let evidence_height = height.saturating_sub(1).max(1);
+            out.push(Misbehavior {
+                kind: MisbehaviorKind::DuplicateVote,
+                validator: Validator {
+                    address,
+                    power: 10u32.into(),
+                },
+                height: Height::try_from(evidence_height).map_err(|_| "bad height".to_string())?,
+                time: block_time(evidence_height),
+                total_voting_power: 40u32.into(),
+            });
+        }
+        Ok(out)
+    }
+
+    /// Block `base` with the request fields given in `kv` replaced (see `hand .. like=`).
+    async fn derive(&self, index: usize, base: &Block, kv: &KeyValues<'_>) -> PResult<Block> {
+        let mut block = base.clone();
+        for (key, _) in &kv.pairs {
+            if !matches!(
+                *key,
+                "like" | "tplus" | "prop" | "misb" | "nvh" | "lc" | "round" | "salt"
+            ) {
+                return Err(format!("unknown field `{key}`"));
+            }
+        }
+        if let Some(value) = kv.opt("tplus") {
+            let offset: u64 = value.parse().map_err(|_| "bad tplus".to_string())?;
+            block.time = block_time(base.height)
+                .checked_add(Duration::from_millis(offset))
+                .ok_or("bad time")?;
+        }
+        if let Some(value) = kv.opt("prop") {
+            let names = &self.replicas[index].names;
+            let proposer_index = names.account_index(value)?;
+            block.proposer = names.keys[proposer_index]
+                .address_bytes()
+                .to_vec()
+                .try_into()
+                .map_err(|_| "bad proposer".to_string())?;
+        }
+        if let Some(value) = kv.opt("misb") {
+            block.misbehavior = if value == "-" {
+                vec![]
+            } else {
+                self.misbehavior_of(index, value, base.height)?
+            };
+        }
+        if let Some(value) = kv.opt("nvh") {
+            block.next_validators_hash = parse_next_validators_hash(value)?;
+        }
+        if let Some(name) = kv.opt_some("lc") {
+            let extended_commit = self
+                .materialize_ec(index, Some(name), 0, base.height)
+                .await?;
+            block.last_commit = project(&extended_commit);
+        }
+        if let Some(value) = kv.opt("round") {
+            let round: u16 = value.parse().map_err(|_| "bad round".to_string())?;
+            block.last_commit.round = round.into();
+        }
+        if let Some(value) = kv.opt("salt") {
+            block.salt = value.parse().map_err(|_| "bad salt".to_string())?;
+        }
+        block.rehash();
+        Ok(block)
+    }
+
+    /// What ProcessProposal's validation of the extended commit in `block`'s data against
+    /// `block`'s last commit says on the committed state of replica `index`: (vote extensions
+    /// enabled, accepted).  Accepted is `true` when there is nothing to validate.
+    async fn twin_validity(&self, index: usize, block: &Block) -> (bool, bool) {
+        let ve = self.ve_enabled(index, block.height).await;
+        let Some(chain) = self.replicas[index].chain.as_ref() else {
+            return (ve, false);
+        };
+        let tm_height = Height::try_from(block.height).unwrap();
+        if !chain.app.uses_data_item_enum(tm_height) {
+            return (ve, true);
+        }
+        let Ok(expanded) = ExpandedBlockData::new_from_typed_data(&block.txs, ve) else {
+            return (ve, false);
+        };
+        let Some(with_proof) = &expanded.extended_commit_info_with_proof else {
+            return (ve, true);
+        };
+        let valid = ProposalHandler::validate_proposal(
+            &chain.storage.latest_snapshot(),
+            block.height,
+            &block.last_commit,
+            with_proof.extended_commit_info(),
+        )
+        .await
+        .is_ok();
+        (ve, valid)
+    }
+
+    /// The block a `proc` / `fin` line names: `<blk>` itself, or with field arguments its near twin
+    /// `<blk>~<f>=<v>~...` (defined on first use).
+    async fn request_block(
+        &mut self,
+        index: usize,
+        name: &str,
+        rest: &[&str],
+    ) -> PResult<(String, Block)> {
+        let base = self.block(name)?;
+        if rest.is_empty() {
+            return Ok((name.to_string(), base));
+        }
+        let kv = KeyValues::parse("twin", rest)?;
+        let derived_name = format!("{name}~{}", rest.join("~"));
+        if let Some(existing) = self.blocks.get(&derived_name) {
+            return Ok((derived_name, existing.clone()));
+        }
+        let block = self.derive(index, &base, &kv).await?;
+        self.blocks.insert(derived_name.clone(), block.clone());
+        Ok((derived_name, block))
     }
 
     fn tx_list<'a>(&self, index: usize, kv: &KeyValues<'a>) -> PResult<Vec<(&'a str, Bytes)>> {
@@ -843,12 +1051,12 @@ impl Driver {
         let request = abci::request::PrepareProposal {
             height: Height::try_from(height).unwrap(),
             time: meta.time,
-            next_validators_hash: Hash::default(),
+            next_validators_hash: meta.next_validators_hash,
             proposer_address: meta.proposer,
             txs: vec![],
             max_tx_bytes,
             local_last_commit: Some(extended_commit.clone()),
-            misbehavior: vec![],
+            misbehavior: meta.misbehavior.clone(),
         };
         let chain = self.replicas[index].chain.as_mut().ok_or("no chain")?;
         let result = chain
@@ -863,23 +1071,20 @@ impl Driver {
         match result {
             Ok(response) => {
                 let last_commit = project(&extended_commit);
-                let hash = block_hash_of(
-                    height,
-                    meta.time,
-                    &meta.proposer,
-                    &last_commit,
-                    &response.txs,
-                );
                 let items = response.txs.len();
                 let user = self.show_user_txs(index, &response.txs);
-                let block = Block {
+                let mut block = Block {
                     height,
                     time: meta.time,
                     proposer: meta.proposer,
                     txs: response.txs,
                     last_commit,
-                    hash,
+                    hash: Hash::default(),
+                    misbehavior: meta.misbehavior,
+                    next_validators_hash: meta.next_validators_hash,
+                    salt: meta.salt,
                 };
+                block.rehash();
                 let matched = self.define_or_compare(name, block);
                 self.emit(format!(
                     "prep {inst} {name} ok h={height} items={items} user={user} match={matched} \
@@ -904,6 +1109,22 @@ impl Driver {
         };
         let index = self.replica(inst)?;
         let kv = KeyValues::parse("hand", rest)?;
+        if let Some(base_name) = kv.opt("like") {
+            let base = self.block(base_name)?;
+            let block = self.derive(index, &base, &kv).await?;
+            let (ve, valid) = self.twin_validity(index, &block).await;
+            let height = block.height;
+            let items = block.txs.len();
+            let user = self.show_user_txs(index, &block.txs);
+            let matched = self.define_or_compare(name, block);
+            self.emit(format!(
+                "hand {inst} {name} ok h={height} items={items} user={user} match={matched} ve={} \
+                 valid={}",
+                u8::from(ve),
+                u8::from(valid),
+            ));
+            return Ok(());
+        }
         let height = self.next_height(index).await?;
         let meta = self.block_meta(index, &kv, height)?;
         let txs = self.tx_list(index, &kv)?;
@@ -1056,17 +1277,20 @@ impl Driver {
             _ => {}
         }
         let last_commit = project(&extended_commit);
-        let hash = block_hash_of(height, meta.time, &meta.proposer, &last_commit, &data);
         let items = data.len();
         let user = self.show_user_txs(index, &data);
-        let block = Block {
+        let mut block = Block {
             height,
             time: meta.time,
             proposer: meta.proposer,
             txs: data,
             last_commit,
-            hash,
+            hash: Hash::default(),
+            misbehavior: meta.misbehavior,
+            next_validators_hash: meta.next_validators_hash,
+            salt: meta.salt,
         };
+        block.rehash();
         let matched = self.define_or_compare(name, block);
         self.emit(format!(
             "hand {inst} {name} ok h={height} items={items} user={user} match={matched} ve={} ecok={}",
@@ -1084,20 +1308,21 @@ impl Driver {
     }
 
     async fn op_proc(&mut self, args: &[&str]) -> PResult<()> {
-        let [inst, name] = args else {
-            return Err("usage: proc <i> <blk>".to_string());
+        let [inst, name, rest @ ..] = args else {
+            return Err("usage: proc <i> <blk> [<field>=..]...".to_string());
         };
         let index = self.replica(inst)?;
-        let block = self.block(name)?;
+        let (name, block) = self.request_block(index, name, rest).await?;
+        let name = name.as_str();
         let request = abci::request::ProcessProposal {
             hash: block.hash,
             height: Height::try_from(block.height).unwrap(),
             time: block.time,
-            next_validators_hash: Hash::default(),
+            next_validators_hash: block.next_validators_hash,
             proposer_address: block.proposer,
             txs: block.txs.clone(),
             proposed_last_commit: Some(block.last_commit.clone()),
-            misbehavior: vec![],
+            misbehavior: block.misbehavior.clone(),
         };
         let chain = self.replicas[index].chain.as_mut().ok_or("no chain")?;
         match chain
@@ -1115,20 +1340,21 @@ impl Driver {
     }
 
     async fn op_fin(&mut self, args: &[&str]) -> PResult<()> {
-        let [inst, name] = args else {
-            return Err("usage: fin <i> <blk>".to_string());
+        let [inst, name, rest @ ..] = args else {
+            return Err("usage: fin <i> <blk> [<field>=..]...".to_string());
         };
         let index = self.replica(inst)?;
-        let block = self.block(name)?;
+        let (name, block) = self.request_block(index, name, rest).await?;
+        let name = name.as_str();
         let request = abci::request::FinalizeBlock {
             hash: block.hash,
             height: Height::try_from(block.height).unwrap(),
             time: block.time,
-            next_validators_hash: Hash::default(),
+            next_validators_hash: block.next_validators_hash,
             proposer_address: block.proposer,
             txs: block.txs.clone(),
             decided_last_commit: block.last_commit.clone(),
-            misbehavior: vec![],
+            misbehavior: block.misbehavior.clone(),
         };
         let replica = &mut self.replicas[index];
         let chain = replica.chain.as_mut().ok_or("no chain")?;
